@@ -404,3 +404,78 @@ Proof.
   destruct b as [|p|p]; try reflexivity.
   do 6 (destruct p as [p|p|]; try reflexivity).
 Qed.
+
+(* ------------------------------------------------------------------ mode: a byte value of maximal count *)
+Definition keep_last_max (best y : N * N) : N * N := if snd best <=? snd y then y else best.
+
+Lemma fold_max : forall r x,
+  let z := fold_left keep_last_max r x in
+  (z = x \/ In z r) /\ snd x <= snd z /\ forall y, In y r -> snd y <= snd z.
+Proof.
+  induction r as [|y r IH]; intros x; cbn [fold_left].
+  - repeat split; [now left|lia|intros y []].
+  - destruct (IH (keep_last_max x y)) as (H1 & H2 & H3).
+    assert (Hk : (keep_last_max x y = x \/ keep_last_max x y = y) /\ snd x <= snd (keep_last_max x y)
+                 /\ snd y <= snd (keep_last_max x y)).
+    { unfold keep_last_max. destruct (snd x <=? snd y) eqn:E; repeat split; auto; lia. }
+    destruct Hk as (Hk1 & Hk2 & Hk3).
+    repeat split.
+    + destruct H1 as [H1|H1]; [|right; now right].
+      rewrite H1. destruct Hk1 as [->| ->]; [now left|right; now left].
+    + lia.
+    + intros y' [<-|Hy']; [lia|now apply H3].
+Qed.
+
+Lemma in_enumerate : forall l k j m, In (j, m) (enumerate_from k l) ->
+  k <= j /\ j < k + nlen l /\ nth (N.to_nat (j - k)) l 0 = m.
+Proof.
+  induction l as [|x l IH]; intros k j m H; cbn [enumerate_from] in H; [destruct H|].
+  destruct H as [E|H].
+  - injection E as <- <-. unfold nlen. cbn [length]. rewrite N.sub_diag. cbn. lia.
+  - apply IH in H as (H1 & H2 & H3). unfold nlen in *. cbn [length].
+    repeat split; try lia.
+    replace (N.to_nat (j - k)) with (S (N.to_nat (j - (k + 1)))) by lia. exact H3.
+Qed.
+
+Lemma enumerate_in : forall l k i, (i < length l)%nat -> In (k + N.of_nat i, nth i l 0) (enumerate_from k l).
+Proof.
+  induction l as [|x l IH]; intros k i H; cbn [length] in H; [lia|]. cbn [enumerate_from].
+  destruct i; [left; f_equal; lia|]. right.
+  replace (k + N.of_nat (S i)) with (k + 1 + N.of_nat i) by lia. apply IH. lia.
+Qed.
+
+Lemma histogram_nth : forall s b, b < 256 -> nth (N.to_nat b) (histogram s) 0 = count_of b s.
+Proof.
+  intros s b Hb. unfold histogram, all_bytes.
+  rewrite (nth_map_any (fun b0 => count_of b0 s)) by (rewrite upto_length; lia).
+  rewrite nth_upto by lia. f_equal. lia.
+Qed.
+
+(* C16_math_mode_partial: math.mode() over a byte slice is a byte value whose count is maximal *)
+Lemma mode_whole_max : forall mem, Forall (fun x => x < 256) mem ->
+  exists i, mode_call (Direct mem) [] = RInt (Z.of_N i) /\ i < 256 /\ forall b, b < 256 -> count_of b mem <= count_of i mem.
+Proof.
+  intros mem Hf. unfold mode_call. cbn [dist_of_args get_direct with_dist].
+  rewrite counters_histogram by assumption.
+  assert (Hlen : length (histogram mem) = 256%nat) by (unfold histogram, all_bytes; rewrite map_length; apply upto_length).
+  unfold max_by_key_last.
+  destruct (rev (enumerate_from 0 (histogram mem))) as [|x r] eqn:Er.
+  - exfalso. assert (Hin : In (0 + N.of_nat 0, nth 0 (histogram mem) 0) (enumerate_from 0 (histogram mem)))
+      by (apply enumerate_in; lia).
+    apply in_rev in Hin. rewrite Er in Hin. destruct Hin.
+  - change (fun best y : N * N => if snd best <=? snd y then y else best) with keep_last_max.
+    destruct (fold_max r x) as (H1 & H2 & H3).
+    set (z := fold_left keep_last_max r x) in *.
+    assert (Hall : forall y, In y (enumerate_from 0 (histogram mem)) -> snd y <= snd z).
+    { intros y Hy. apply in_rev in Hy. rewrite Er in Hy. destruct Hy as [<-|Hy]; [exact H2|now apply H3]. }
+    assert (Hz : In z (enumerate_from 0 (histogram mem))).
+    { apply in_rev. rewrite Er. destruct H1 as [->|H1]; [now left|now right]. }
+    destruct z as [i n] eqn:Ez. exists i.
+    apply in_enumerate in Hz as (Z1 & Z2 & Z3). unfold nlen in Z2. rewrite Hlen in Z2.
+    split; [reflexivity|]. split; [lia|].
+    intros b Hb.
+    assert (Hb' : In (0 + N.of_nat (N.to_nat b), nth (N.to_nat b) (histogram mem) 0) (enumerate_from 0 (histogram mem)))
+      by (apply enumerate_in; lia).
+    apply Hall in Hb'. cbn [snd] in Hb'. rewrite histogram_nth in Hb' by exact Hb.
+    rewrite N.sub_0_r in Z3. rewrite histogram_nth in Z3 by lia. lia.
+Qed.
